@@ -234,6 +234,12 @@ func (c *Ctx) viewsOfDecodeBuffer() {
 						isView = handedInput
 						break
 					}
+					// the packet image the header decoder keeps (dbuf = src[:header+remaining length]) is itself a view
+					// of the input: a sub-slice of it is one too
+					if bp := ir.PathOf(sl.X); len(bp.Fields) > 0 && bp.Fields[len(bp.Fields)-1] == "dbuf" && c.dbufIsViewOfInput() {
+						isView = true
+						break
+					}
 					v = ir.SeeThrough(sl.X)
 				}
 				c.R.Check(isView, "T3-dirty-discipline", fmt.Sprintf("%s:%s-is-view-of-input", fname(fn), field), c.P.InstrPos(st),
@@ -1384,4 +1390,48 @@ func (c *Ctx) packetIDWrittenWhole() {
 	}
 	c.R.Count("encoder copies of the packet identifier field", n)
 	c.R.Floor("encoder copies of the packet identifier field", n, 1)
+}
+
+// dbufIsViewOfInput: the header decoder stores into dbuf nothing but sub-slices of its input.
+func (c *Ctx) dbufIsViewOfInput() bool {
+	fn := c.P.Func("message", "header", "decode")
+	if fn == nil {
+		return false
+	}
+	var src ssa.Value
+	for _, p := range fn.Params {
+		if _, ok := p.Type().Underlying().(*types.Slice); ok {
+			src = p
+		}
+	}
+	n := 0
+	for _, b := range fn.Blocks {
+		for _, in := range b.Instrs {
+			st, ok := in.(*ssa.Store)
+			if !ok {
+				continue
+			}
+			if p := ir.PathOf(st.Addr); len(p.Fields) == 0 || p.Fields[len(p.Fields)-1] != "dbuf" {
+				continue
+			}
+			n++
+			v := st.Val
+			ok = false
+			for i := 0; i < 4; i++ {
+				sl, isSl := v.(*ssa.Slice)
+				if !isSl {
+					break
+				}
+				if ir.SeeThrough(sl.X) == src {
+					ok = true
+					break
+				}
+				v = ir.SeeThrough(sl.X)
+			}
+			if !ok {
+				return false
+			}
+		}
+	}
+	return n > 0
 }
